@@ -12,6 +12,10 @@ CLAIMED = {
          "Proof by lemma schema: every CFG path of every checked helper in pkg/pdfcpu/safemath is enumerated and its branch literals matched against Lemma A / Lemma M (DESIGN.md C42); success paths must imply no-overflow, error paths must imply negative operand or overflow, divisions must be guarded. All obligations are discharged syntactically on SSA; covers all operand pairs because the lemmas are universally quantified.",
          "Trusted: Lemma A and Lemma M (pen-and-paper, DESIGN.md), go/ssa's lowering of the helpers, Go integer semantics. Recogniser is sound but incomplete: an unfamiliar idiom is reported as unrecognised schema.",
          "SSA path enumeration + guard-schema matching (lemma instantiation)", "DESIGN.md §4 C42"),
+ "C07": ("other",
+         "Decides the ordering clauses of the durability statement on every CFG path: data fsync -> close -> rename -> directory fsync in the single-font writer; per-directory typestate (rename dirties both directories, a successful sync*Directories naming them cleans them) in the batch publishers; default operation-table bindings reach (*os.File).Sync / os.Rename and propagate their errors; no call site discards a sync/close/rename error. This is the whole statement except what the kernel does on fsync — ordering is exactly what a must-pass-through analysis decides, and no test can observe it on a live filesystem.",
+         "Assumes POSIX fsync/rename semantics; on Windows SyncDirectory is a documented no-op (assumption). Panics between the calls are C01's subject. Trusted: go/ssa CFGs, the error-kind classifier (flow.go) and the field/function names in c07.go.",
+         "must-pass-through dataflow on SSA CFGs with success-edge facts; per-directory typestate; operation-table binding resolution", "DESIGN.md §4 C07"),
 }
 
 # id -> reason (properties not claimed). PENDING entries are planned in DESIGN.md but the
